@@ -52,7 +52,7 @@ CHECKS = {
             "Noisy mock and ladder spectra x six linear tests (+cnls) x {Z, Y} x capacitance x inductance x num_RC x log_F_ext x 13 transformations (|Z| and f scaled by 1e-6..1e6 and 2^+-20, reversed order): residuals, pseudo chi-squared, time constants and model impedances of the transformed run must equal the rescaled original within frozen, tiered tolerances (0 for reversal, 1e-6 without C/L columns and for |Z| scaling of least-squares variants, 1e-3 otherwise). Exhaustive over the declared grid.",
             "Tolerances were calibrated once on the unchanged tree and frozen; num_RC is kept in the well-conditioned range; the un-equilibrated w columns are a recorded known finding keyed by the measured un-normalised condition number.", "DESIGN.md section 4, C09"),
     "C11": ("exploration", E1 + " (option cross products on constant-phase and ladder spectra; analytic modulus as oracle)",
-            "Constant-phase spectra x 5 smoothers x 4 interpolators x {Z, Y}, (num_points, polynomial_order) pairs, custom weights x frequency grids, named windows x centres x widths and the default call, ladders, scaling by 2^10 and 1e-3, modification of zero-weight moduli, the same named window on two grids of equal length one call after the other (other range; same end points with warped spacing), every smoothing filter on exactly constant/linear phase, and the window generator for 13 windows x 9 placements; oracles are the analytic modulus (2e-4), a frozen 15 % band for ladders, equivariance, and filter exactness (1e-10).",
+            "Constant-phase spectra x 5 smoothers x 4 interpolators x {Z, Y}, (num_points, polynomial_order) pairs, custom weights x frequency grids, named windows x centres x widths and the default call, ladders, scaling by 2^10 and 1e-3, modification of zero-weight moduli, the same named window on two grids of equal length one call after the other (other range; same end points with warped spacing), every smoothing filter on exactly constant/linear phase, and the window generator for 13 windows x 9 placements; oracles are the analytic modulus (2e-4), frozen per-ladder bands of 4-15 % (ladders incl. time constants at either edge of the range), equivariance, and filter exactness (1e-10).",
             "Spectra are a declared finite set; bands were calibrated once on the unchanged tree and frozen.", "DESIGN.md section 4, C11"),
     "C08": ("exploration", E1 + " (entry points x options x mask subsets x masked payloads x input order; differential masked-vs-removed oracle)",
             "About 50 (110) configured entry points - KK tests, evaluate_log_F_ext, exploratory KK, Z-HIT incl. the offset-shift case, four DRT methods and circuit fits - x every mask subset of size <= 2 over four probe positions x garbage payloads at the masked points x ascending/descending input, plus each light entry point run twice in one process with masks leaving equally many points and the same end points: result frequencies, residual definition, pseudo chi-squared, attached circuit, untouched inputs, and bit-identical result versus the data set with the masked points physically removed.",
